@@ -138,6 +138,14 @@ fn directed07(f: &mut Forest) -> Vec<(Id, Id)> {
         "(softfork (q . 160) (q . 0x0000) (q . (q . 1)) (q . ()))",
         "(softfork (q . 160) (q . 5) (q . (q . 1)) (q . ()))",
         "(softfork (q . 160) (q . 0) (q . (q . 1)))",
+        // a guard that fails (wrong declared cost, failing body) behind a non-canonically spelled extension or cost
+        "(softfork (q . 200) (q . 0x0000) (q . (q . 1)) (q . ()))",
+        "(softfork (q . 200) (q . 0x000000) (q . (q . 1)) (q . ()))",
+        "(softfork (q . 160) (q . 0x0000) (q . (x)) (q . ()))",
+        "(softfork (q . 0x0000c8) (q . 0) (q . (q . 1)) (q . ()))",
+        "(softfork (q . 200) (q . 0x0001) (q . (q . 1)) (q . ()))",
+        "(softfork (q . 200) (q . 0x0002) (q . (q . 1)) (q . ()))",
+        "(softfork (q . 200) (q . 0x00000000000005) (q . (q . 1)) (q . ()))",
         "(0x0f (q . 1))",
         "(coinid (sha256 (q . 1)) (sha256 (q . 2)) (q . 0x0001))",
         "(substr (q . \"abcdef\") (q . 0x0001))",
